@@ -124,7 +124,15 @@ var Kinds = []Kind{
 	{"rune", func() interface{} { return 'x' }},
 	{"iface_slice_nil", func() interface{} { return []interface{}(nil) }},
 	{"error", func() interface{} { return errors.New("boom") }},
+	// comparable by type, not comparable (hashable) by value
+	{"struct_holding_slice", func() interface{} { return struct{ V interface{} }{[]int{1}} }},
+	{"array_holding_map", func() interface{} { return [1]interface{}{map[string]int{"a": 1}} }},
+	{"iface_key_map", func() interface{} { return map[interface{}]string{1: "one", "k": "v"} }},
+	{"named_string", func() interface{} { return namedStr("ns") }},
+	{"pmap", func() interface{} { return &map[string]int{"a": 1} }},
 }
+
+type namedStr string
 
 // SmallKinds is an 8-kind subset for the deeper tuples.
 var SmallKinds = []string{"nil", "int1", "str_a", "bool_t", "float64", "ints3", "msi", "pstrct"}
